@@ -5,9 +5,9 @@ import VaxisModel.Model.Input
 
 Components: the input goroutine of `openTty` (either at its `select`, `pend = []`, or in the
 middle of `handleSequence` with the remaining effects `pend`), the event queue (FIFO, capacity
-`qcap`), the six reply channels with their real capacities (chCursorPos 0, chSizeDone 1,
-chColor 1, chFg 1, chBg 1, chClipboard 0) and the requesters (`CursorPosition`, `reportWinsize`,
-`Query*`, `ClipboardPop`).  Real time is abstracted: a time-out is a label that may fire whenever
+`qcap`), the six reply channels with their real capacities (chCursorPos 1 since the F12 repair —
+read from the source, `cursorCapGen` —, chSizeDone 1, chColor 1, chFg 1, chBg 1, chClipboard 0)
+and the requesters (`CursorPosition`, `reportWinsize`, `Query*`, `ClipboardPop`).  Real time is abstracted: a time-out is a label that may fire whenever
 its timer is armed.
 
 How each send in `handleSequence` is written (bare send / `select` with `default` / `select` with
@@ -47,17 +47,34 @@ def Kinds.ofGen : Kinds :=
 def Kinds.original : Kinds :=
   { cursorPos := .blocking, sizeDone := .blocking, color := .blocking, fg := .blocking, bg := .blocking, clipboard := .timeout }
 
+/-- Capacity of `chCursorPos` as written in `New()` (`make(chan [2]int, 1)` since the F12 repair,
+unbuffered before). -/
+def cursorCapGen : Nat :=
+  match Gen.Caps.chanCaps.lookup "chCursorPos" with
+  | some "1" => 1
+  | _ => 0
+
+/-- Does `CursorPosition()` start by dropping a stale answer (`select { case <-vx.chCursorPos: default: }`)? -/
+def cursorDrainGen : Bool :=
+  Gen.Caps.cp_stmts.head? == some "select { case <-vx.chCursorPos: default: }"
+
 /-- Parameters of the system. -/
 structure Params where
   qcap : Nat
   kinds : Kinds
   b64 : List Nat → Option (List Nat)
+  /-- capacity of `chCursorPos` (0 = rendezvous) -/
+  cursorCap : Nat := cursorCapGen
+  /-- `CursorPosition()` drains `chCursorPos` before it raises the request flag -/
+  cursorDrain : Bool := cursorDrainGen
 
 structure Sys where
   vs : VState := {}
   /-- remaining effects of the sequence being handled; `[]` = the goroutine is at its `select` -/
   pend : List Effect := []
   queue : List Event := []
+  /-- contents of `chCursorPos` when it is buffered -/
+  cursorCh : List (Int × Int) := []
   /-- occupancy of the capacity-1 channels -/
   sizeDone : Nat := 0
   color : List (List Nat) := []
@@ -85,6 +102,9 @@ inductive Label
   | consume
   /-- `CursorPosition()`: set the flag and wait / its 50 ms timer fires -/
   | cursorCall | cursorTimeout
+  /-- `CursorPosition()`: the non-blocking receive that drops a stale answer (before the flag is
+  raised) / the waiting requester receives the answer from the buffered channel -/
+  | cursorDrain | cursorRecv
   /-- a requester receives from a capacity-1 reply channel -/
   | sizeRecv | colorRecv | fgRecv | bgRecv
   /-- `ClipboardPop()` starts waiting / its context is cancelled -/
@@ -109,10 +129,17 @@ def stepEffect (p : Params) (s : Sys) (e : Effect) (rest : List Effect) : Option
       if s.queue.length < p.qcap then some { s with pend := rest, queue := s.queue ++ [ev] }
       else some { s with pend := rest, dropped := s.dropped + 1 }
   | .sendCursorPos r c =>
-      if s.cursorWaiting then some { s with pend := rest, cursorWaiting := false, cursorGot := s.cursorGot ++ [(r, c)] }
-      else match p.kinds.cursorPos with
-        | .blocking => none
-        | _ => some { s with pend := rest }
+      if p.cursorCap = 0 then
+        -- rendezvous (the source before the F12 repair)
+        if s.cursorWaiting then some { s with pend := rest, cursorWaiting := false, cursorGot := s.cursorGot ++ [(r, c)] }
+        else match p.kinds.cursorPos with
+          | .blocking => none
+          | _ => some { s with pend := rest }
+      else
+        match send1 p.kinds.cursorPos s.cursorCh.length with
+        | some true => some { s with pend := rest, cursorCh := s.cursorCh ++ [(r, c)] }
+        | some false => some { s with pend := rest }
+        | none => none
   | .sendSizeDone =>
       match send1 p.kinds.sizeDone s.sizeDone with
       | some true => some { s with pend := rest, sizeDone := s.sizeDone + 1 }
@@ -167,6 +194,14 @@ def next (p : Params) (s : Sys) : Label → Option (Except Panic Sys)
       else some (.ok { s with vs := { s.vs with reqCursorPos := true }, cursorWaiting := true })
   | .cursorTimeout =>
       if s.cursorWaiting then some (.ok { s with vs := { s.vs with reqCursorPos := false }, cursorWaiting := false })
+      else none
+  | .cursorDrain =>
+      if p.cursorDrain && !s.cursorWaiting then some (.ok { s with cursorCh := [] }) else none
+  | .cursorRecv =>
+      if s.cursorWaiting then
+        match s.cursorCh with
+        | [] => none
+        | v :: t => some (.ok { s with cursorCh := t, cursorWaiting := false, cursorGot := s.cursorGot ++ [v] })
       else none
   | .sizeRecv => if s.sizeDone > 0 then some (.ok { s with sizeDone := s.sizeDone - 1 }) else none
   | .colorRecv => match s.color with | [] => none | _ :: t => some (.ok { s with color := t })
